@@ -2,10 +2,11 @@
 # run every registered check once (quick tier by default); prints one line per property
 TIER=${1:-quick}
 SEED=${2:-1}
-cd /verif
+NOBUILD=${3---no-build}
+cd "$(dirname "$0")/.."
 for p in $(python3 -c "import sys; sys.path.insert(0,'lib'); import props; print(' '.join(sorted(props.PROPS)))"); do
   s=$(date +%s)
-  out=$(VERIF_SEED=$SEED ./check $p --tier $TIER --no-build 2>&1)
+  out=$(VERIF_SEED=$SEED ./check $p --tier $TIER $NOBUILD 2>&1)
   rc=$?
   e=$(date +%s)
   echo "$p rc=$rc $((e-s))s :: $(echo "$out" | grep -E 'VIOLATION|KNOWN-FINDING|INCONCLUSIVE|held on' | cut -c1-220 | tr '\n' '|')"
